@@ -205,3 +205,10 @@ Theorem C18_json_diagnostics_name_store_files : forall p code out err w,
                            /\ e_pos e = Some pos /\ d_line d = u32 (p_line pos) /\ d_col d = u32 (p_col pos).
 Proof. exact json_diagnostics_name_store_files. Qed.
 Print Assumptions C18_json_diagnostics_name_store_files.
+
+(** the file a diagnostic names is the one whose index its position carries (not the document being checked) *)
+Theorem C18_diagnostic_file_is_position_file : forall files e f pos,
+  located_file files e = Some (f, pos) ->
+  e_pos e = Some pos /\ p_builtin pos = false /\ get_file files (p_file pos) = Some f.
+Proof. exact located_file_is_position_file. Qed.
+Print Assumptions C18_diagnostic_file_is_position_file.
